@@ -649,14 +649,24 @@ def make_c10_judge():
     BR = re.compile(r"^\[(\d+)\]$")
 
     def judge(obs, ctx):
-        if obs.product is None:
-            return
-        p = obs.product
         w = witness(obs)
-        recs = [obs.vec.record] + [m.record for m in obs.mods]
         pre = obs.pre  # deep snapshots taken before the call (citations as written by the user)
         if pre is None:
             return
+        # inputs' own indices unchanged, whatever the outcome (shared with C07)
+        for rid, a, b in zip(ids_of(obs), obs.pre, obs.post):
+            ca = [f["qualifiers"].get("citation") for f in a["features"]]
+            cb = [f["qualifiers"].get("citation") for f in b["features"]]
+            if ca != cb:
+                ctx.violation("input-citation-indices-changed" + (":after-failure" if obs.error is not None else ""),
+                              "citation qualifiers of input %r changed (call %s): %r -> %r" % (rid, outcome_kind(obs), ca, cb), **w)
+                break
+        if obs.error is not None:
+            ctx.count("c10_failed_calls_checked")
+        if obs.product is None:
+            return
+        p = obs.product
+        recs = [obs.vec.record] + [m.record for m in obs.mods]
         src = {}
         for ri, snap in enumerate(pre):
             refs = snap["annotations"].get("references", [])
@@ -699,7 +709,7 @@ def make_c10_judge():
                 got.append(flat[i - 1])
             if got is not None and got != src[u]:
                 ctx.violation("citation-points-to-other-reference", "feature %s cited %r in its source, its image cites %r" % (
-                    u, [r[1] for r in src[u]], [r[1] for r in got]), **w)
+                    u, [r[1:4] for r in src[u]], [r[1:4] for r in got]), **w)
         cited = set(r for rs in src.values() for r in rs)
         dupes = [r for r in set(flat) if r in cited and flat.count(r) > 1]
         if dupes:
@@ -707,12 +717,4 @@ def make_c10_judge():
         if ncited:
             ctx.count("c10_products_with_surviving_citations")
             ctx.count("c10_surviving_cited_features", ncited)
-        # inputs' own indices unchanged (shared with C07)
-        for rid, a, b in zip(ids_of(obs), obs.pre, obs.post):
-            ca = [f["qualifiers"].get("citation") for f in a["features"]]
-            cb = [f["qualifiers"].get("citation") for f in b["features"]]
-            if ca != cb:
-                ctx.violation("input-citation-indices-changed", "citation qualifiers of input %r changed: %r -> %r" % (rid, ca, cb), **w)
-                break
-
     return judge
